@@ -202,7 +202,9 @@ def loop_case(sc: dict[str, Any]) -> dict[str, Any]:
             def add(body, tag=tag):
                 tags = body.setdefault('spec', {}).setdefault('tags', [])
                 if tag not in tags: tags.append(tag)
-            patch.fns.append(add)
+            # docs/patches.rst: parametrised transformations are given as functools.partial; plain functions work too
+            import functools
+            patch.fns.append(functools.partial(add, tag=tag) if sc.get('partial') else add)
             handled.append(tag)
         kopf.on.create(GROUP, VERSION, PLURAL, registry=reg, id='a')(sim.handler('a', extra=extra))
         kopf.on.update(GROUP, VERSION, PLURAL, registry=reg, id='a', field='spec.x')(sim.handler('a', extra=extra))
@@ -261,8 +263,8 @@ def run(ctx, rep) -> None:
     rep.extra['negative_config'] = f'MC_Patching_neg (ops computed from the body of the event): {rn.violated} violated, as required'
     runs = build_runs(ctx.quick, ctx.seed)
     from concurrent.futures import ProcessPoolExecutor
-    lscs = [{'id': f'loop-{c}-{f}-{len(e)}', 'conflicts': c, 'fail_after_conflict': f, 'edits': e, 'end': 80}
-            for c in (0, 1, 2) for f in (0, 1, 2) for e in ([], [10], [10, 11], [10, 25])]
+    lscs = [{'id': f'loop-{c}-{f}-{len(e)}-{int(pt)}', 'conflicts': c, 'fail_after_conflict': f, 'edits': e, 'end': 80, 'partial': pt}
+            for c in (0, 1, 2) for f in (0, 1, 2) for e in ([], [10], [10, 11], [10, 25]) for pt in (False, True)]
     with ProcessPoolExecutor(16) as ex:
         runs += list(ex.map(loop_case, lscs))
     bad = records.judge('Rec_Patching', [{k: v for k, v in r.items() if k != 'case'} for r in runs], rep=rep, shard=700)
